@@ -173,7 +173,7 @@ OUT_FORMS = ['absent', 'rel', 'rel_nested', 'rel_nosuffix', 'rel_oneletter', 're
 CWD_DIRS = ['cwd0', 'cwd with space', 'deep/x/y/z', 'decoy', 'w']
 ARGVS = [['caller'], ['pytest', '-ra', '-q'], ['prog', 'a.txt', 'b.out'], []]
 FAULTS = ['enospc', 'eio', 'eacces', 'vanish', 'cancel']
-FAULT_AT = [1, 2, 3, 4, 6, 8, 10, 12, 15, 20, 25, 30, 40, 60]
+FAULT_AT = [1, 2, 3, 4, 5, 6, 7, 8, 10, 12, 15, 20, 25, 30, 40]
 SLOT_PATHS = ['in/req0.txt', 'in dir/req 1.txt', 'deep/a/b/req2.txt']
 
 
@@ -283,6 +283,17 @@ def gen_history(cs, templates, tier, force=None):
         elif kind == 'fault':
             ops.append({'op': 'fault', 'kind': FAULTS[cs.choose(len(FAULTS), 'fkind')],
                         'at': FAULT_AT[cs.choose(len(FAULT_AT), 'fat')]})
+            if slots and cs.choose(4, 'frun') != 0:
+                # a fault while idle tests nothing: most armed faults are followed at once by a run on an existing slot
+                sl = sorted(slots)[cs.choose(len(slots), 'fslot')]
+                entry = 'hip' if slots[sl]['kind'] == 'hip' else ['client', 'cli', 'client_params', 'main_argv'][cs.choose(4, 'fentry')]
+                op = {'op': 'run', 'entry': entry, 'slot': sl, 'client': [0, 0, 2, 1][cs.choose(4, 'client')],
+                      'out': OUT_FORMS[cs.choose(len(OUT_FORMS), 'out')], 'reuse': cs.choose(2, 'reuse') == 1}
+                if entry == 'client_params':
+                    tw = HW.GEO_TWEAKS[cs.choose(len(HW.GEO_TWEAKS), 'ptweak')]
+                    op['params'] = {tw[0]: tw[1][cs.choose(len(tw[1]), 'ptweakv')]}
+                ops.append(op)
+                nruns += 1
     h['ops'] = ops
     return h
 
